@@ -324,7 +324,7 @@ pub fn diff_layer(a_name: &str, a: &NLayer, b_name: &str, b: &NLayer) -> Option<
                     ),
                 ));
             }
-        } else {
+        } else if !n.starts_with('~') {
             return Some((
                 format!("{:?}.{}|missing", a.kind, n),
                 format!("{:?} bytes {} missing in {}", a.kind, n, b_name),
